@@ -69,6 +69,15 @@ M = [
  ("c10_window_copied_before_each_wrap_flush", "C10", "src/decode/lzbuffer.rs",
   "            self.stream.write_all(self.buf.as_slice())?;\n            self.cursor = 0;",
   "            let window = self.buf.to_vec();\n            self.cursor = 0;\n            self.stream.write_all(&window)?;"),
+ ("c01_default_entry_point_sets_a_memory_limit", "C01", "src/lib.rs",
+  "    lzma_decompress_with_options(input, output, &decompress::Options::default())",
+  "    lzma_decompress_with_options(\n        input,\n        output,\n        &decompress::Options {\n            memlimit: Some(1 << 16),\n            ..decompress::Options::default()\n        },\n    )"),
+ ("c05_stream_new_uses_other_defaults", "C05", "src/decode/stream.rs",
+  "        Self::new_with_options(&Options::default(), output)",
+  "        Self::new_with_options(\n            &Options {\n                allow_incomplete: true,\n                ..Options::default()\n            },\n            output,\n        )"),
+ ("c04_default_compress_entry_point_skips_size_field", "C04", "src/lib.rs",
+  "    lzma_compress_with_options(input, output, &compress::Options::default())",
+  "    lzma_compress_with_options(\n        input,\n        output,\n        &compress::Options {\n            unpacked_size: compress::UnpackedSize::SkipWritingToHeader,\n        },\n    )"),
  ("c08_final_size_check_removed", "C08", "src/decode/lzma.rs",
   "            if mode == ProcessingMode::Finish && len != output.len() as u64 {",
   "            if mode == ProcessingMode::Finish && len > output.len() as u64 {"),
